@@ -56,8 +56,8 @@ def apply_request_impl(path, req, via_cli):
         if v is None:
             continue
         if v == "":
-            # the command line cannot express "cleared" for list flags; use the library
-            return impl.edit(path, {k: v for k, v in req.items()})
+            argv += [flag, ""]          # an empty argument clears the field
+            continue
         argv += [flag] + (v if isinstance(v, list) else v.split())
     for f, flag in (("comment", "--comment"), ("source", "--source")):
         if req[f] is not None:
@@ -151,7 +151,7 @@ def run_case(run, drv, case_seed, max_len):
             if bad:
                 run.fail("impl-vs-spec", dict(case, step=step), {"why": bad})
                 break
-            drv.ask("edit " + hx(raw0) + " " + " ".join(_tok(req[f]) for f in FIELDS),
+            drv.ask("edit " + hx(raw0) + " " + " ".join(_tok(req[f]) for f in ("comment", "source", "private", "announce", "url-list", "httpseeds")),
                     (case, step, raw1))
             shapes.append(sorted((f, "clear" if v == "" else type(v).__name__)
                                  for f, v in req.items() if v is not None))
